@@ -161,12 +161,12 @@ def step(ctx, st, op):
                 out.append((("r", EOF_CHAR), (n, True, _add(a, nls), _add(r, nls), v), None))
                 # a reading in which the trailing layout is not counted / consumed is allowed too
                 out.append((("r", EOF_CHAR), (n, True, a, r, v), None))
-                if nls:
-                    # recognised deviation: layout containing a newline before the end of
-                    # the text is reported as a syntax error instead of end_of_file
+                if rest:
+                    # recognised deviation: layout before the end of the text is reported
+                    # as a syntax error instead of end_of_file
                     for a2, r2 in ((_add(a, nls), _add(r, nls)), (a, r)):
                         out.append((("e", ("syntax_error", "incomplete_reduction")), (n, False, a2, r2, v),
-                                    "rt_trailing_newline_layout_syntax_error"))
+                                    "rt_trailing_layout_syntax_error"))
                 continue
             m = _SIMPLE.match(rest)
             if not m:
@@ -198,7 +198,8 @@ def step(ctx, st, op):
 
     if op == "pr":
         eos = "past" if past else ("at" if off >= n else "not")
-        return [(("r", ("p", off, (la, lr), eos)), (off, past, la, lr, off), None)]
+        lines = (la, lr) if ctx.typ == "text" else (None, None)   # a binary stream has no lines
+        return [(("r", ("p", off, lines, eos)), (off, past, la, lr, off), None)]
 
     if op == "sp":
         return [(("r", "ok"), (sv, False, None, None, sv), None)]
